@@ -1,18 +1,30 @@
-"""C06 - SIV and ISAP modes; ISAP keys persist (only the key-persistence part is claimed)."""
+"""C06 - SIV and ISAP modes compute their documented constructions; ISAP keys persist."""
 from driver import Group
 from props import common
 
 LEVEL = "proof"
 EXPLANATION = (
-    "Claimed part: persistence of pre-computed ISAP keys. For ISAP-A-128A, ISAP-A-128 and ISAP-A-80PQ, save_key is "
-    "enforced against 'the 80 output bytes are canon(ke) || canon(ka) and the key object is not written' (the key is "
-    "absent from the assigns clause, so any store to it is a failed frame obligation), load_key against 'canon(ke), "
-    "canon(ka) are the 80 input bytes', and free against 'both states zero' (C13); load(save(pk)) therefore has the same "
-    "canonical key states as pk, and every ISAP operation is a function of those states, the nonce, AD and data."
+    "SIV: ascon128/128a/80pq_siv_encrypt and _decrypt (real entry points and static helpers, real absorb loops and state "
+    "byte operations) are executed against the two-pass construction of doc/siv.dox (spec/spec_siv.h: authentication pass "
+    "with IV 0x81/0xa1 over padded AD and padded plaintext, tag = nonce of the keystream pass with IV 0x82/0xa2, p^b before "
+    "every keystream block, last block truncated) over the abstract permutation, for every key, nonce, AD and message content "
+    "at enumerated constant lengths around the block boundaries: tag, ciphertext, plaintext, 0/-1 and zeroed plaintext as "
+    "specified. ISAP: ascon128a/128/80pq_isap_aead_init followed by _encrypt/_decrypt against ISAP v2.0 (spec/spec_isap.h: "
+    "IVs, bit-serial re-keying ISAP_RK with p^sB per bit and p^sK for the last, ISAP_ENC keystream from K_E* || N, ISAP_MAC "
+    "over N || IV_A, padded AD, domain bit, padded C, re-keyed with Y = first k bits; 80PQ: the same with 160-bit K and Y) "
+    "for ANY permutation (logged oracle: the k-th call of the code must have the argument of the k-th call of the reference), "
+    "same enumeration of lengths; the pre-computed key object is bit-for-bit unchanged by encrypt and decrypt. Key "
+    "persistence: save_key is enforced against 'the 80 output bytes are canon(ke) || canon(ka) and the key object is not "
+    "written', load_key against 'canon(ke), canon(ka) are the 80 input bytes', free against 'both states zero' (C13); "
+    "load(save(pk)) therefore has the same canonical key states as pk, and every ISAP operation is a function of those "
+    "states, the nonce, AD and data."
 )
 ASSUMPTIONS = [
-    "NOT covered (no contract was built in the time available): that ASCON-128-SIV / 128a-SIV / 80pq-SIV compute the documented two-pass construction, that the ISAP encrypt/decrypt/MAC functions compute ISAP v2.0, and that encrypt/decrypt leave the const key untouched",
+    "SIV/ISAP: plain-assertion groups at enumerated constant lengths (block boundaries), not every length; the keystream/absorb loops' generalisation to every length is by the uniform loop structure (meta-step); in particular a length parameter narrower than size_t in a static helper (inputs of 4 GiB and more) is NOT detected: CBMC's --conversion-check also flags every explicit byte cast of this code base and objects of symbolic size exhaust the solver",
+    "where the prose of doc/siv.dox lists 'XOR, then permute' for the keystream pass, its diagram applies p^b before the first block; the diagram is taken as the documented construction (the code agrees with the diagram)",
+    "spec/spec_isap.h is a transcription of ISAP v2.0 from the specification's algorithms; it is cross-checked only through the code it is compared with (which passes the official KAT vectors in the test suite)",
     "the round trip load(save(pk)) == pk is the composition of the two contracts (two-line lemma, not executed)",
+    "permutation: abstract (SIV) / logged oracle (ISAP): results hold for whatever ascon_permute computes, in particular ref_permute (C08)",
 ]
 
 
@@ -27,4 +39,7 @@ def groups(tier):
                             enforce=f, defs=["VERIF_FN=" + f, "VERIF_T=" + T, "VERIF_ISAP_" + op], contracts=["contracts/c_isap_key.h"],
                             drop_unused=True, unwind=42, timeout=900, expect_classes=["postcondition", "assigns"]))
     gs += [g for g in common.free_groups("c06", ["C06"]) if "isap" in g.name]
+    gs += common.siv_groups("c06", ["C06"], tier)
+    gs += common.isap_groups("c06", ["C06"], tier)
     return gs
+
